@@ -17,10 +17,12 @@
      comparison, the operators of operators.py used in aggregate arguments, datatypes.type_promotion
      over the reflected table.
    * TERM FRAGMENT (sort keys, group keys, aggregate members): blank nodes, IRIs, plain string
-     literals, xsd:integer, xsd:decimal - NOT language-tagged strings, booleans, dates, doubles,
-     other datatypes (doubles only in the promotion suite: datatype proved, value to a tolerance).
-     The property's "sort keys of mixed term kinds and datatypes" is covered for these five kinds
-     only.  Sort keys are variables (or aggregates as unprojected aliases); HAVING is one comparison
+     literals, language-tagged strings (lower-case tags), xsd:boolean, xsd:integer, xsd:decimal -
+     NOT dates, doubles, other datatypes (doubles only in the promotion suite: datatype proved,
+     value to a tolerance).  The property's "sort keys of mixed term kinds and datatypes" is
+     covered for these seven kinds.  Exclusion visible in [wf] (sum_bool_free): no SUM argument
+     takes an xsd:boolean value - HEAD raises TypeError there (notes, F-C08i).  Expressions
+     (eval_t) over tagged strings / booleans are defined but not tied to rdflib.  Sort keys are variables (or aggregates as unprojected aliases); HAVING is one comparison
      of COUNT/SUM/AVG with an integer or of a grouping key with an IRI.
    * The literal order (numeric below string) is rdflib's choice where SPARQL 15.1 leaves the
      order of unrelated literals open: the checker is stricter than the standard there. *)
@@ -56,6 +58,25 @@ Theorem C08_key_order_total_preorder :
   /\ (forall a b c, kle a b = true -> kle b c = true -> kle a c = true).
 Proof. split; [exact kle_refl|split; [exact kle_total|exact kle_trans]]. Qed.
 Print Assumptions C08_key_order_total_preorder.
+
+(* the classes of the order: unbound < blank node < IRI < boolean < numeric < plain string <
+   language-tagged string; false < true; tagged strings by tag, then by string *)
+Theorem C08_literal_class_order : forall l i b z m k s c tag t,
+  klt None (Some (TB l)) = true /\ klt (Some (TB l)) (Some (TI i)) = true
+  /\ klt (Some (TI i)) (Some (TBool b)) = true
+  /\ klt (Some (TBool b)) (Some (TInt z)) = true /\ klt (Some (TBool b)) (Some (TDec m k)) = true
+  /\ klt (Some (TInt z)) (Some (TStr s)) = true /\ klt (Some (TDec m k)) (Some (TStr s)) = true
+  /\ klt (Some (TStr s)) (Some (TLang (c :: tag) t)) = true
+  /\ klt (Some (TBool false)) (Some (TBool true)) = true
+  /\ (forall tag1 tag2 s1 s2, str_lt tag1 tag2 = true -> klt (Some (TLang tag1 s1)) (Some (TLang tag2 s2)) = true)
+  /\ (forall tg s1 s2, klt (Some (TLang tg s1)) (Some (TLang tg s2)) = str_lt s1 s2).
+Proof.
+  intros. repeat split; try reflexivity.
+  - intros tag1 tag2 s1 s2 H. unfold klt. simpl. unfold lex2. simpl. now rewrite H.
+  - intros tg s1 s2. unfold klt. simpl. unfold lex2. simpl.
+    destruct (str_lt tg tg) eqn:E; [|reflexivity]. pose proof (str_lt_asym _ _ E). congruence.
+Qed.
+Print Assumptions C08_literal_class_order.
 
 (* ... so ORDER BY with any number of ASC/DESC keys returns a permutation of
    its input in which no row is followed, at any distance, by a row that must
